@@ -9,9 +9,11 @@ import Dashu.Model.Int.Repr
   little-endian `List Nat`; a `DoubleWord` is a `Nat < 2^(2W)`; machine bit operations are the
   `Nat` operations `&&& ||| ^^^`, `!w` on a word is `2^W - 1 - w`.
 
-  Three functions are known to be defective on the pinned commit (trailing_ones_large,
-  are_dword_low_bits_nonzero, Repr::ones).  They take a flag `fx`: `fx = false` is the code AS IT
-  IS, `fx = true` is the code after the one-line repair proposed in `/verif/proposed_fixes`.
+  Three functions were defective on the pinned snapshot ab05307 (trailing_ones_large,
+  are_dword_low_bits_nonzero, Repr::ones) and have been repaired in /repo by the fix commits
+  754b193, 94ebcdb, 283f2ad.  They take a flag `fx`: `fx = true` is the code AS IT IS NOW,
+  `fx = false` is the separately kept model of the code as it was (used only by the
+  `…_asis_counterexample` theorems that show why the repairs were needed).
   The *specification* side (section "spec" below) is independent of both.
 -/
 namespace Dashu.Model
@@ -240,8 +242,8 @@ def TRepr.shr (W : Nat) (m : TRepr) (n : Nat) (byRef : Bool := false) : TRepr :=
   | .small d => shrDword W d n
   | .large ws => if byRef then shrLargeRef W ws n else shrLarge W ws n
 
-/-- `are_dword_low_bits_nonzero`.  AS IS (`fx = false`) the count is clamped to `WORD_BITS`;
-    repaired (`fx = true`) to `DWORD_BITS`. -/
+/-- `are_dword_low_bits_nonzero`.  As it was (`fx = false`) the count was clamped to `WORD_BITS`;
+    now (`fx = true`) to `DWORD_BITS`. -/
 def areDwordLowBitsNonzero (W : Nat) (fx : Bool) (d n : Nat) : Bool :=
   (d &&& onesN (min n (if fx then 2 * W else W))) != 0
 
@@ -290,18 +292,19 @@ def tzLarge (W : Nat) : List Nat → Except PanicKind Nat
   | [] => .error oob
   | w :: ws => if w ≠ 0 then .ok (tzWord W w) else (tzLarge W ws).map (· + W)
 
-/-- the scan of `trailing_ones_large` from its start index: first word `≠ Word::MAX`, then
+/-- the scan of the old `trailing_ones_large` from its start index: first word `≠ Word::MAX`, then
     `words[one_words].trailing_ones()`; index panic when every scanned word is `MAX` -/
 def toScan (W : Nat) : List Nat → Except PanicKind Nat
   | [] => .error oob
   | w :: ws => if w ≠ 2 ^ W - 1 then .ok (toWord W w) else (toScan W ws).map (· + W)
 
-/-- the scan of the repaired `trailing_ones_large`: start at word 0, and `len·W` if all words are `MAX` -/
+/-- the scan of `trailing_ones_large` (as it is now): start at word 0, and `len·W` if all words are `MAX` -/
 def toScanFixed (W : Nat) : List Nat → Nat
   | [] => 0
   | w :: ws => if w ≠ 2 ^ W - 1 then toWord W w else toScanFixed W ws + W
 
-/-- `trailing_ones_large`.  AS IS (`fx = false`) the scan starts at word index 1. -/
+/-- `trailing_ones_large`.  As it was (`fx = false`) the scan started at word index 1 and indexed
+    past the end when all scanned words were `MAX`. -/
 def toLarge (W : Nat) (fx : Bool) (ws : List Nat) : Except PanicKind Nat :=
   if fx then .ok (toScanFixed W ws) else (toScan W (ws.drop 1)).map (· + W)
 
@@ -419,9 +422,9 @@ def TRepr.nextPow2 (W : Nat) : TRepr → TRepr
     | none => fromBuffer W [0, 0, 1]
   | .large ws => nextPow2Large W ws
 
-/-- `Repr::ones(n)`.  AS IS (`fx = false`) the inline/heap test is `n < DWORD_BITS`, so `n = 2W`
-    builds the 2-word *heap* value `[MAX, MAX]` (the result is transmuted, not passed through
-    `from_buffer`); repaired (`fx = true`): `n <= DWORD_BITS`. -/
+/-- `Repr::ones(n)`.  As it was (`fx = false`) the inline/heap test was `n < DWORD_BITS`, so `n = 2W`
+    built the 2-word *heap* value `[MAX, MAX]` (the result is transmuted, not passed through
+    `from_buffer`); now (`fx = true`): `n <= DWORD_BITS`. -/
 def reprOnes (W : Nat) (fx : Bool) (n : Nat) : TRepr :=
   if n < W then .small (onesN n)
   else if n < 2 * W ∨ (fx ∧ n = 2 * W) then .small (onesN n)
@@ -504,15 +507,15 @@ def SCanon (W : Nat) (r : SRepr) : Prop := r.mag.Canon W ∧ (r.neg = true → r
 
 instance (W : Nat) (r : SRepr) : Decidable (SCanon W r) := by unfold SCanon; infer_instance
 
--- ---------------------------------------------------------------- defect classes (known findings)
+-- ---------------------------------------------------------------- defect classes of the old code (`fx = false`)
 
-/-- inputs on which `trailing_ones_large` AS IS differs from the specification: a heap value whose
+/-- inputs on which the old `trailing_ones_large` differs from the specification: a heap value whose
     word 0 is not `MAX` (scan starts at word 1), or whose words 1.. are all `MAX` (index panic) -/
 def toDefect (W : Nat) : TRepr → Bool
   | .small _ => false
   | .large ws => ws.getD 0 0 != 2 ^ W - 1 || (ws.drop 1).all (· == 2 ^ W - 1)
 
-/-- inputs on which `IBig >> n` AS IS differs from floor division: negative inline value, `n > W`,
+/-- inputs on which the old `IBig >> n` differs from floor division: negative inline value, `n > W`,
     low word zero, and some bit among bits `W .. min(n, 2W) - 1` set -/
 def shrDefect (W : Nat) (a : SRepr) (n : Nat) : Bool :=
   match a.mag with
